@@ -520,6 +520,12 @@ func (x *exec) callWrites(w *writeSet, cc *ssa.CallCommon) {
 			w.heaps["next"] = smt.Int
 		case "copy":
 			w.arr(x, cc.Args[0].Type().Underlying().(*types.Slice).Elem())
+		case "clear":
+			if st, ok := cc.Args[0].Type().Underlying().(*types.Slice); ok {
+				w.arr(x, st.Elem())
+			} else {
+				w.all = true
+			}
 		case "delete":
 			w.all = true
 		}
